@@ -18,6 +18,7 @@ import EinoV.Basic.JsonUtil
 import EinoV.Model.FlatMap
 import EinoV.Model.C02Workflow
 import EinoV.Oracle.GraphCase
+import EinoV.Spec.DagWF
 
 namespace EinoV.Oracle.C02Workflow
 open Lean EinoV EinoV.Engine EinoV.Oracle.GraphCase
@@ -168,6 +169,8 @@ def handle (c : Json) : JE Json := do
   let alts := ((probed ++ ex.results).eraseDups).filterMap (fun t => (Json.parse t).toOption)
   pure (Json.mkObj [("runs", J.mkArr runs), ("alts", J.mkArr alts),
     ("altsComplete", Json.bool ex.complete),
+    -- hypothesis of the run-level theorems (Props/C02.lean `workflow_at_most_once`)
+    ("wf", Json.bool (Engine.DagRun.dagWFb r)),
     ("possible", J.mkArr (ex.tasks.map fun t => Json.mkObj [("k", Json.str t.1), ("in", Json.str t.2)]))])
 
 end EinoV.Oracle.C02Workflow
